@@ -3,6 +3,7 @@ package sim
 import (
 	"fmt"
 	"sort"
+	"strconv"
 	"strings"
 )
 
@@ -152,16 +153,156 @@ type Stmt struct {
 	Kids []Stmt `json:"kids,omitempty"`
 }
 
-// resolve follows a plain field path. ok=false means the path is definitely
-// absent.
+// selSeg is one segment of a selector of the sub-language: .name, [i], [a:b], each
+// optionally followed by "?".
+type selSeg struct {
+	field    string
+	isField  bool
+	isIndex  bool
+	idx      int
+	hasA     bool
+	hasB     bool
+	a, b     int
+	optional bool
+}
+
+// parseSelModel takes a selector of the sub-language apart (the generator only writes
+// well-formed ones; anything else yields ok=false and the statement gets no verdict).
+func parseSelModel(sel string) ([]selSeg, bool) {
+	if sel == "." || sel == "" {
+		return nil, true
+	}
+	var out []selSeg
+	i := 0
+	for i < len(sel) {
+		switch sel[i] {
+		case '.':
+			j := i + 1
+			for j < len(sel) && sel[j] != '.' && sel[j] != '[' && sel[j] != '?' {
+				j++
+			}
+			if j == i+1 {
+				return nil, false
+			}
+			out = append(out, selSeg{field: sel[i+1 : j], isField: true})
+			i = j
+		case '[':
+			j := strings.IndexByte(sel[i:], ']')
+			if j < 0 {
+				return nil, false
+			}
+			body := sel[i+1 : i+j]
+			i += j + 1
+			if c := strings.IndexByte(body, ':'); c >= 0 {
+				sg := selSeg{}
+				if body[:c] != "" {
+					n, err := strconv.Atoi(body[:c])
+					if err != nil {
+						return nil, false
+					}
+					sg.hasA, sg.a = true, n
+				}
+				if body[c+1:] != "" {
+					n, err := strconv.Atoi(body[c+1:])
+					if err != nil {
+						return nil, false
+					}
+					sg.hasB, sg.b = true, n
+				}
+				out = append(out, sg)
+			} else {
+				n, err := strconv.Atoi(body)
+				if err != nil {
+					return nil, false
+				}
+				out = append(out, selSeg{isIndex: true, idx: n})
+			}
+		case '?':
+			if len(out) == 0 {
+				return nil, false
+			}
+			out[len(out)-1].optional = true
+			i++
+		default:
+			return nil, false
+		}
+	}
+	return out, true
+}
+
+// sliceBounds: Python slice clamping.
+func sliceBounds(sg selSeg, n int) (int, int) {
+	a, b := 0, n
+	if sg.hasA {
+		a = sg.a
+		if a < 0 {
+			a += n
+		}
+	}
+	if sg.hasB {
+		b = sg.b
+		if b < 0 {
+			b += n
+		}
+	}
+	if a < 0 {
+		a = 0
+	}
+	if a > n {
+		a = n
+	}
+	if b < 0 {
+		b = 0
+	}
+	if b > n {
+		b = n
+	}
+	if b < a {
+		b = a
+	}
+	return a, b
+}
+
+func stepSel(sg selSeg, cur Val) (Val, bool) {
+	switch {
+	case sg.isField:
+		return cur.get(sg.field)
+	case sg.isIndex:
+		if cur.K != "list" {
+			return Val{}, false
+		}
+		i := sg.idx
+		if i < 0 {
+			i += len(cur.L)
+		}
+		if i < 0 || i >= len(cur.L) {
+			return Val{}, false
+		}
+		return cur.L[i], true
+	default:
+		switch cur.K {
+		case "list":
+			a, b := sliceBounds(sg, len(cur.L))
+			return Val{K: "list", L: append([]Val{}, cur.L[a:b]...)}, true
+		case "str":
+			rs := []rune(cur.S)
+			a, b := sliceBounds(sg, len(rs))
+			return vStr(string(rs[a:b])), true
+		}
+		return Val{}, false
+	}
+}
+
+// resolve follows a selector of the sub-language (fields, list indexes, list and string
+// slices by character). ok=false means the path is definitely absent.
 func resolveSel(sel string, v Val) (Val, bool) {
-	if sel == "." {
-		return v, true
+	segs, ok := parseSelModel(sel)
+	if !ok {
+		return Val{}, false
 	}
 	cur := v
-	for _, f := range strings.Split(strings.TrimPrefix(sel, "."), ".") {
-		f = strings.TrimSuffix(f, "?")
-		n, ok := cur.get(f)
+	for _, sg := range segs {
+		n, ok := stepSel(sg, cur)
 		if !ok {
 			return Val{}, false
 		}
@@ -226,14 +367,15 @@ func cmpNum(op string, a, b Val) bool {
 // missingOptional: following the path segment by segment, the first segment
 // that does not resolve is an optional one ("x?").
 func missingOptional(sel string, v Val) bool {
-	if sel == "." || sel == "" {
+	segs, ok := parseSelModel(sel)
+	if !ok {
 		return false
 	}
 	cur := v
-	for _, f := range strings.Split(strings.TrimPrefix(sel, "."), ".") {
-		n, ok := cur.get(strings.TrimSuffix(f, "?"))
+	for _, sg := range segs {
+		n, ok := stepSel(sg, cur)
 		if !ok {
-			return strings.HasSuffix(f, "?")
+			return sg.optional
 		}
 		cur = n
 	}
@@ -298,7 +440,7 @@ func evalStmt(s Stmt, args Val) bool {
 // verdict on the policy clause for such statements; this situation arises only
 // through argument hooks that remove an argument and through minimiser
 // candidates, never from the generator's own statements.
-func optionalSel(sel string) bool { return strings.HasSuffix(sel, "?") }
+func optionalSel(sel string) bool { return strings.Contains(sel, "?") }
 
 func definiteStmt(s Stmt, args Val, underNotOr bool) bool {
 	switch s.Op {
@@ -405,11 +547,11 @@ type DlgSpec struct {
 	Pol      []Stmt     `json:"pol,omitempty"`
 	Nbf      *int64     `json:"nbf,omitempty"` // seconds after the simulation epoch
 	Exp      *int64     `json:"exp,omitempty"`
-	SubMilli int64      `json:"sub_ms,omitempty"` // sub-second part added to the bounds at construction
-	Relative bool       `json:"relative,omitempty"` // bounds given through With…In (clock-derived)
+	SubMilli int64      `json:"sub_ms,omitempty"`    // sub-second part added to the bounds at construction
+	Relative bool       `json:"relative,omitempty"`  // bounds given through With…In (clock-derived)
 	NonceLen int        `json:"nonce_len,omitempty"` // 0: generated
 	Meta     []MetaSpec `json:"meta,omitempty"`
-	UseRoot  bool       `json:"use_root,omitempty"` // constructed with delegation.Root
+	UseRoot  bool       `json:"use_root,omitempty"`  // constructed with delegation.Root
 	PolSpare bool       `json:"pol_spare,omitempty"` // policy assembled with append(policy.Construct(a...), policy.Construct(b...)...): slice with spare capacity
 }
 
